@@ -50,7 +50,7 @@ def tree : Iface :=
     types := [.obj [84] [([97, 95, 98], .optional (.array .int), [[99]]), ([117], .struct [], [])] [],
               .enm [69] [([111, 110, 101], []), ([116, 119, 111], [])] []],
     methods := [⟨[77], [([120], .map (.custom [84]), [])], [], []⟩],
-    errors := [⟨[66, 97, 100], [([119, 104, 121], .enum [[112], [113]], [])], []⟩] }
+    errors := [⟨[66, 97, 100], [([119, 104, 121], .enum [([112], []), ([113], [])], [])], []⟩] }
 example : ifaceOK tree = true := by decide +kernel
 example : roundTrips tree = true := by decide +kernel
 -- "interface a.b\nmethod M(a:) -> ()" (used to panic), "interface a.b\nerror Foo" (member used to be
